@@ -546,3 +546,99 @@ func anyPathReturns(fn *ssa.Function, prm *ssa.Parameter) []*ssa.Return {
 	}
 	return out
 }
+
+// flagTrueFrom: on every path from the end of block <from> to the branch <g> the boolean variable that <g> tests holds the
+// constant true. The variable is followed through the phis of the function: entering a block from a predecessor gives each
+// boolean phi of that block the value of the corresponding edge (a constant, or the value another phi had). Returns false
+// when some path reaches <g> with the variable false or unknown, or when <g> cannot be reached at all.
+func flagTrueFrom(from *ssa.BasicBlock, g *ssa.If) bool {
+	type state struct {
+		b    *ssa.BasicBlock
+		vals string
+	}
+	encode := func(m map[*ssa.Phi]int8, order []*ssa.Phi) string {
+		bs := make([]byte, len(order))
+		for i, ph := range order {
+			bs[i] = byte('0' + m[ph] + 1)
+		}
+		return string(bs)
+	}
+	var order []*ssa.Phi
+	for _, b := range from.Parent().Blocks {
+		for _, in := range b.Instrs {
+			if ph, ok := in.(*ssa.Phi); ok && isBoolType(ph.Type()) {
+				order = append(order, ph)
+			}
+		}
+	}
+	eval := func(v ssa.Value, m map[*ssa.Phi]int8) int8 { // 1 true, 0 false, -1 unknown
+		switch x := v.(type) {
+		case *ssa.Const:
+			if x.Value != nil && x.Value.String() == "true" {
+				return 1
+			}
+			if x.Value != nil && x.Value.String() == "false" {
+				return 0
+			}
+		case *ssa.Phi:
+			if val, ok := m[x]; ok {
+				return val
+			}
+		}
+		return -1
+	}
+	type item struct {
+		b, pred *ssa.BasicBlock
+		vals    map[*ssa.Phi]int8
+	}
+	start := map[*ssa.Phi]int8{}
+	for _, ph := range order {
+		start[ph] = -1
+	}
+	var stack []item
+	for _, s := range from.Succs {
+		stack = append(stack, item{s, from, start})
+	}
+	seen := map[state]bool{}
+	reached := false
+	for len(stack) > 0 {
+		it := stack[len(stack)-1]
+		stack = stack[:len(stack)-1]
+		// enter it.b from it.pred: all phis of the block are assigned in parallel
+		vals := map[*ssa.Phi]int8{}
+		for k, v := range it.vals {
+			vals[k] = v
+		}
+		idx := -1
+		for i, pr := range it.b.Preds {
+			if pr == it.pred {
+				idx = i
+			}
+		}
+		for _, in := range it.b.Instrs {
+			ph, ok := in.(*ssa.Phi)
+			if !ok {
+				break
+			}
+			if isBoolType(ph.Type()) && idx >= 0 {
+				vals[ph] = eval(ph.Edges[idx], it.vals)
+			}
+		}
+		st := state{it.b, encode(vals, order)}
+		if seen[st] {
+			continue
+		}
+		seen[st] = true
+		if it.b == g.Block() {
+			reached = true
+			if eval(g.Cond, vals) != 1 {
+				return false
+			}
+			continue
+		}
+		for _, s := range it.b.Succs {
+			stack = append(stack, item{s, it.b, vals})
+		}
+	}
+	return reached
+}
